@@ -1,6 +1,7 @@
 package main
 
 import (
+	"strconv"
 	"flag"
 	"go/types"
 	"fmt"
@@ -51,25 +52,47 @@ func Load(repo string, extraContracts string) (*Loaded, error) {
 		ParseContractFile(filepath.Join(dir, contractFile), p.PkgPath, cs)
 	}
 	L.Errs = append(L.Errs, cs.Errs...)
-	overlay := map[string][]byte{}
-	for _, p := range pkgs {
-		if len(p.GoFiles) == 0 {
+	var pkgs2 []*packages.Package
+	for round := 0; ; round++ {
+		overlay := map[string][]byte{}
+		var genErrs []string
+		for _, p := range pkgs {
+			if len(p.GoFiles) == 0 {
+				continue
+			}
+			src, errs := GenerateWrappers(p, cs)
+			genErrs = append(genErrs, errs...)
+			dir := filepath.Dir(p.GoFiles[0])
+			overlay[filepath.Join(dir, genFile)] = []byte(src)
+			L.Gen[p.PkgPath] = src
+		}
+		var err error
+		pkgs2, err = loadPkgs(repo, overlay)
+		if err != nil {
+			return nil, err
+		}
+		// a wrapper that does not type-check belongs to one function's contract: mark that contract
+		// stale and generate again without it, so that the rest of the package stays checkable
+		var loadErrs []string
+		again := false
+		for _, p := range pkgs2 {
+			for _, e := range p.Errors {
+				if c := staleContractOf(e.Pos, overlay, cs); c != nil && round < 4 {
+					if c.Stale == "" {
+						c.Stale = e.Msg
+					}
+					again = true
+					continue
+				}
+				loadErrs = append(loadErrs, "load(gen): "+e.Error())
+			}
+		}
+		if again {
 			continue
 		}
-		src, errs := GenerateWrappers(p, cs)
-		L.Errs = append(L.Errs, errs...)
-		dir := filepath.Dir(p.GoFiles[0])
-		overlay[filepath.Join(dir, genFile)] = []byte(src)
-		L.Gen[p.PkgPath] = src
-	}
-	pkgs2, err := loadPkgs(repo, overlay)
-	if err != nil {
-		return nil, err
-	}
-	for _, p := range pkgs2 {
-		for _, e := range p.Errors {
-			L.Errs = append(L.Errs, "load(gen): "+e.Error())
-		}
+		L.Errs = append(L.Errs, genErrs...)
+		L.Errs = append(L.Errs, loadErrs...)
+		break
 	}
 	prog, spkgs := ssautil.AllPackages(pkgs2, ssa.NaiveForm|ssa.InstantiateGenerics)
 	prog.Build()
@@ -309,6 +332,44 @@ func verifyAll(L *Loaded, sel func(c *Contract) bool, workDir string, timeout ti
 	}
 	ors = results
 	return frs, ors
+}
+
+// staleContractOf maps a type error inside a generated wrapper file to the function contract the
+// wrapper was generated from ("// <key> <kind> [label] (file:line)" precedes every wrapper).
+func staleContractOf(pos string, overlay map[string][]byte, cs *ContractSet) *Contract {
+	f := strings.Split(pos, ":")
+	if len(f) < 2 {
+		return nil
+	}
+	src, ok := overlay[f[0]]
+	if !ok {
+		return nil
+	}
+	ln, err := strconv.Atoi(f[1])
+	if err != nil {
+		return nil
+	}
+	lines := strings.Split(string(src), "\n")
+	pkgPath := ""
+	for _, c := range cs.Order {
+		if c.Pkg != nil && len(c.Pkg.GoFiles) > 0 && filepath.Dir(c.Pkg.GoFiles[0]) == filepath.Dir(f[0]) {
+			pkgPath = c.PkgPath
+			break
+		}
+	}
+	for i := ln - 1; i >= 0 && i < len(lines); i-- {
+		if strings.HasPrefix(lines[i], "// ") && i+1 < len(lines) && strings.HasPrefix(lines[i+1], "func vc_") {
+			key := strings.Fields(lines[i][3:])[0]
+			key = strings.TrimSuffix(key, ":")
+			for _, c := range cs.Order {
+				if c.PkgPath == pkgPath && c.Key == key && !c.IsIface && !c.Lemma && !c.External {
+					return c
+				}
+			}
+			return nil
+		}
+	}
+	return nil
 }
 
 func cmdVerify(args []string) {
